@@ -27,10 +27,10 @@ class C04(T.SeqCases, S.SchedCheck):
                    "IEEE-754 doubles satisfy LawfulTyme on the values used (no Lean instance)"]
     rule = ("random op-free fault-free forests (leaves, optionally DoDoers with tock > 0) + random regroupings of consecutive siblings under DoDoer(tock=0): every level, nested (depth <= 4), "
             "empty groups, groups at every position; scripts positive* asap* / asap-then-positive / mixed; limits incl. non-multiples; starts != 0; non-dyadic tocks.  "
-            "40% of the flat/nested/g04 programs hold waiter doers that READ a sibling's .done (function-style targets whose flag comes from the return value; waiter after / before its target, inside / outside its group); 2 in 9 programs carry one fault — a raise/KeyboardInterrupt at a step under the last-group guard, or (40% of them) a failing ENTER of any member at any position of any group, nested too (raise / KeyboardInterrupt at a step, mid cycle, live siblings before and after it in its group, the group last at every level): forced-exit order nested vs flat; ~40% of the cases reach the same program through a history or another entry point (schedt.run_var: seq, same Doist twice, faulted first run, pre-wound, ints, iterator, doers at init, __call__, hand-driven enter/recur/exit, DoDoer opts); formerly: 30% of the cases are SECOND runs (the same nested / flat doer objects first run under another Doist with another start tyme, cut by a limit, then under a fresh Doist).  thorough: every single and double regrouping of 4 fixed 3..4-leaf programs.  non-trivial = the nested program has a transparent group holding >= 1 live leaf and >= 8 recur events; distinct by request line")
+            "9% small worlds with the DYNAMIC API: the same remove/extend op script (removes naming a doer by an equal-but-not-identical bound method, extends re-offering completed members, pool doers) applied to the Doist (flat) and to a tock-0 DoDoer holding the same members (nested), oracle only; 40% of the flat/nested/g04 programs hold waiter doers that READ a sibling's .done (function-style targets whose flag comes from the return value; waiter after / before its target, inside / outside its group); 2 in 9 programs carry one fault — a raise/KeyboardInterrupt at a step under the last-group guard, or (40% of them) a failing ENTER of any member at any position of any group, nested too (raise / KeyboardInterrupt at a step, mid cycle, live siblings before and after it in its group, the group last at every level): forced-exit order nested vs flat; ~40% of the cases reach the same program through a history or another entry point (schedt.run_var: seq, same Doist twice, faulted first run, pre-wound, ints, iterator, doers at init, __call__, hand-driven enter/recur/exit, DoDoer opts); formerly: 30% of the cases are SECOND runs (the same nested / flat doer objects first run under another Doist with another start tyme, cut by a limit, then under a fresh Doist).  thorough: every single and double regrouping of 4 fixed 3..4-leaf programs.  non-trivial = the nested program has a transparent group holding >= 1 live leaf and >= 8 recur events; distinct by request line")
 
     def corpus(self):
-        return list(T.TIMING_CORPUS) + list(T.WAITER_CORPUS) + list(T.FAULT_CORPUS) + list(T.ENTER_FAULT_CORPUS) + list(T.DEGENERATE_CORPUS) + self.seq_corpus(T.TIMING_CORPUS + T.WAITER_CORPUS)
+        return [("dynpair", tuple(sorted(g.items()))) for g in self.PAIR_CORPUS] + list(T.TIMING_CORPUS) + list(T.WAITER_CORPUS) + list(T.FAULT_CORPUS) + list(T.ENTER_FAULT_CORPUS) + list(T.DEGENERATE_CORPUS) + self.seq_corpus(T.TIMING_CORPUS + T.WAITER_CORPUS)
 
     def exhaustive(self, tier):
         if tier != "thorough":
@@ -56,6 +56,10 @@ class C04(T.SeqCases, S.SchedCheck):
                     yield T.gen_degenerate(rng)
                     made += 1
                     continue
+                if rng.random() < 0.09:
+                    yield ("dynpair", T.gen_world(rng, "pair"))
+                    made += 1
+                    continue
                 if kind == "fault":
                     yield T.gen_faulted(rng) if rng.random() < 0.6 else T.gen_enter_fault(rng)
                     made += 1
@@ -70,7 +74,18 @@ class C04(T.SeqCases, S.SchedCheck):
         return self.with_seq(rng, plain())
 
     def request(self, case):
+        if case[0] == "dynpair":
+            return ("unmodelled",)
         return T.request_head("flatpair", self.base(case))
+
+    PAIR_CORPUS = (
+        # remove by an equal-but-not-identical object (a bound method fetched afresh) while the doer is live
+        dict(tock=1.0, start=0.0, limit=8.0, pool=[], doers=[(1, "fn", [0.0] * 6), (2, "bound", [0.0] * 6), (3, "doizebound", [0.0] * 6)],
+             ops=[(1, 2, ("remove", [2], True)), (1, 3, ("remove", [3], True))]),
+        # a member completes and is offered to extend() again together with a new doer
+        dict(tock=0.5, start=1.0, limit=8.0, pool=[(50, "fn", [0.0, 0.0])], doers=[(1, "fn", [0.0]), (2, "bound", [0.0] * 9), (3, "doer", [0.0] * 3)],
+             ops=[(2, 5, ("extend", [1, 50])), (2, 7, ("extend", [3, 1]))]),
+    )
 
     def run_impl(self, case):
         with T.waiters():
@@ -78,6 +93,8 @@ class C04(T.SeqCases, S.SchedCheck):
 
     def _run_impl(self, case):
         T.settle_heap()
+        if case[0] == "dynpair":
+            return T.WorldObs(T.run_world(case[1], nested=False), T.run_world(case[1], nested=True))
         if case[0] in ("seq", "var"):
             # nested objects and flat objects each go through the same history / entry point; those runs are compared
             v = self.variant(case)
@@ -92,6 +109,8 @@ class C04(T.SeqCases, S.SchedCheck):
         return T.leaf_view(case, obs.a, drop), T.leaf_view(T.flatten_case(case), obs.b, drop)
 
     def nontrivial(self, case, obs):
+        if case[0] == "dynpair":
+            return len(obs.a["trace"]) >= 10
         case = self.base(case)
         spec, par, pools, kids = S.spec_index(case)
         has = any(s[0] == "leaf" and par[i] != 0 and T.transparent(spec[par[i]]) and not isinstance(s[3], tuple) for i, s in spec.items())
@@ -99,6 +118,8 @@ class C04(T.SeqCases, S.SchedCheck):
 
     def features(self, case, obs):
         f = super().features(case, obs)
+        if case[0] == "dynpair":
+            return f
         case0, case = case, self.base(case)
         sp = [s for s, _, _ in S.all_specs(case)]
         tg = [s for s in sp if T.transparent(s)]
@@ -121,6 +142,8 @@ class C04(T.SeqCases, S.SchedCheck):
         return f
 
     def oracle(self, case, obs):
+        if case[0] == "dynpair":
+            return T.c04_pair_clauses(obs.a, obs.b)
         case = self.base(case)
         if not T.op_free(case):
             return []
@@ -130,6 +153,8 @@ class C04(T.SeqCases, S.SchedCheck):
         return T.c04_clauses(vn, vf)
 
     def known(self, case, obs, clauses):
+        if case[0] == "dynpair":
+            return None
         case = self.base(case)
         vn, vf = self.views(case, obs)
         up = T.first_divergence_tyme(vn, vf)
